@@ -1179,9 +1179,198 @@ fn router_cases(a: &Args, res: &mut RunResult, base_id: i64) {
     }
 }
 
+// =====================================================================================
+// live cases: the session and task emitters of the real authority (router in-process): runs with
+// inputs of 10 B / 9 kB / 100 kB (ack frames larger than the BufWriter), a thread post (message, run
+// frames, session frames), a pipes task printing 20 kB; the hook monitor watches every append; after
+// all producers have ended: prefix + whole frames, then the read-only routes of sessions / tasks add
+// nothing.  No verdict depends on a deadline: a producer that has not ended in time only skips checks.
+// =====================================================================================
+fn live_cases(_a: &Args, res: &mut RunResult, base_id: i64) {
+    let sc = Scratch::new("c02live");
+    let data = sc.path().join("data");
+    let ws = sc.path().join("ws");
+    std::fs::create_dir_all(&data).unwrap();
+    std::fs::create_dir_all(&ws).unwrap();
+    let log_path = data.join("events.jsonl");
+    mon_set_path(Some(log_path.clone()));
+    let rt = tokio::runtime::Builder::new_multi_thread().worker_threads(3).enable_all().build().expect("runtime");
+    let mut viol: Vec<(String, String, serde_json::Value)> = vec![];
+    let mut checks = 0u64;
+    let mut notes: Vec<String> = vec![];
+    let mut counts: std::collections::BTreeMap<String, u64> = Default::default();
+    let r = std::panic::catch_unwind(std::panic::AssertUnwindSafe(|| {
+        rt.block_on(async {
+            use http_body_util::BodyExt;
+            use tower::ServiceExt;
+            let app = ripd::verif::build_app(data.clone(), ws.clone(), None);
+            let call = |method: &'static str, uri: String, body: Option<serde_json::Value>| {
+                let app = app.clone();
+                async move {
+                    let b = axum::http::Request::builder().method(method).uri(uri.as_str());
+                    let req = match body {
+                        Some(v) => b.header("content-type", "application/json").body(axum::body::Body::from(v.to_string())).unwrap(),
+                        None => b.body(axum::body::Body::empty()).unwrap(),
+                    };
+                    let resp = app.oneshot(req).await.expect("infallible");
+                    let st = resp.status().as_u16();
+                    let mut body = resp.into_body();
+                    let mut bytes = vec![];
+                    while let Ok(Some(Ok(fr))) = tokio::time::timeout(std::time::Duration::from_millis(200), body.frame()).await {
+                        if let Some(d) = fr.data_ref() {
+                            bytes.extend_from_slice(d);
+                        }
+                        if bytes.len() > 4_000_000 {
+                            break;
+                        }
+                    }
+                    (st, serde_json::from_slice::<serde_json::Value>(&bytes).unwrap_or(serde_json::Value::Null))
+                }
+            };
+            // waits until `done(frames)` holds and the log has been quiet for 500 ms (bounded: 40 s)
+            let settle = |done: Box<dyn Fn(&[serde_json::Value]) -> bool + Send>| {
+                let log_path = log_path.clone();
+                async move {
+                    let t0 = std::time::Instant::now();
+                    let mut last_len = u64::MAX;
+                    let mut quiet_since = std::time::Instant::now();
+                    loop {
+                        let len = std::fs::metadata(&log_path).map(|m| m.len()).unwrap_or(0);
+                        if len != last_len {
+                            last_len = len;
+                            quiet_since = std::time::Instant::now();
+                        }
+                        if quiet_since.elapsed() >= std::time::Duration::from_millis(500) {
+                            let text = std::fs::read(&log_path).unwrap_or_default();
+                            let frames: Vec<serde_json::Value> = text.split(|b| *b == b'\n').filter_map(|l| serde_json::from_slice(l).ok()).collect();
+                            if done(&frames) {
+                                return true;
+                            }
+                        }
+                        if t0.elapsed() > std::time::Duration::from_secs(40) {
+                            return false;
+                        }
+                        tokio::time::sleep(std::time::Duration::from_millis(25)).await;
+                    }
+                }
+            };
+            let has = |frames: &[serde_json::Value], sid: &str, ty: &str| frames.iter().any(|f| f.get("session_id").and_then(|x| x.as_str()) == Some(sid) && f.get("type").and_then(|x| x.as_str()) == Some(ty));
+            let mut all_ended = true;
+            let mut session_ids: Vec<String> = vec![];
+            let mut task_ids: Vec<String> = vec![];
+            // every step: (label, request(s)) then settle, then prefix / whole frames against the snapshot before
+            let mut snapshot = std::fs::read(&log_path).unwrap_or_default();
+            let check_step = |label: &str, viol: &mut Vec<(String, String, serde_json::Value)>, checks: &mut u64, snapshot: &mut Vec<u8>| {
+                let after = std::fs::read(&log_path).unwrap_or_default();
+                *checks += 1;
+                let replay = json!({"kind": "live", "step": label});
+                if after.len() < snapshot.len() || after[..snapshot.len()] != snapshot[..] {
+                    viol.push((format!("live/{label}: previous log content is no longer a prefix ({} -> {} bytes)", snapshot.len(), after.len()), "log_prefix_changed".into(), replay));
+                } else if let Err(e) = parse_log(&after[snapshot.len()..]) {
+                    viol.push((format!("live/{label}: appended bytes are not whole frames: {e}"), "partial_frame_appended".into(), replay));
+                }
+                *snapshot = after;
+            };
+            for n in [10usize, 9000, 100_000] {
+                let (st, v) = call("POST", "/sessions".into(), None).await;
+                let Some(sid) = v.get("session_id").and_then(|x| x.as_str()).map(|x| x.to_string()) else {
+                    notes.push(format!("POST /sessions -> {st}: no session id"));
+                    continue;
+                };
+                let input = "a\n\"".repeat(n / 3 + 1);
+                let (st2, _) = call("POST", format!("/sessions/{sid}/input"), Some(json!({"input": input}))).await;
+                let sid2 = sid.clone();
+                let ended = settle(Box::new(move |fr| has(fr, &sid2, "session_ended"))).await;
+                *counts.entry(format!("live_session_input_{n}_status_{st2}_ended_{ended}")).or_default() += 1;
+                all_ended &= ended;
+                session_ids.push(sid);
+                check_step(&format!("session run, input of {n} bytes"), &mut viol, &mut checks, &mut snapshot);
+            }
+            let (_, v) = call("POST", "/threads/ensure".into(), None).await;
+            if let Some(tid) = v.get("thread_id").and_then(|x| x.as_str()).map(|x| x.to_string()) {
+                check_step("threads/ensure", &mut viol, &mut checks, &mut snapshot);
+                for n in [20usize, 30_000] {
+                    let (st, v) = call("POST", format!("/threads/{tid}/messages"), Some(json!({"content": "m\t\"".repeat(n / 3 + 1), "actor_id": "user", "origin": "harness"}))).await;
+                    let run = v.get("session_id").and_then(|x| x.as_str()).map(|x| x.to_string());
+                    let tid2 = tid.clone();
+                    let ended = match run.clone() {
+                        Some(rid) => settle(Box::new(move |fr| has(fr, &rid, "session_ended") && fr.iter().any(|f| f.get("session_id").and_then(|x| x.as_str()) == Some(tid2.as_str()) && f.get("type").and_then(|x| x.as_str()) == Some("continuity_run_ended") && f.get("run_session_id").and_then(|x| x.as_str()) == Some(rid.as_str())))).await,
+                        None => false,
+                    };
+                    *counts.entry(format!("live_thread_post_{n}_status_{st}_ended_{ended}")).or_default() += 1;
+                    all_ended &= ended;
+                    if let Some(r) = run {
+                        session_ids.push(r);
+                    }
+                    check_step(&format!("thread post, content of {n} bytes"), &mut viol, &mut checks, &mut snapshot);
+                }
+            } else {
+                notes.push("POST /threads/ensure: no thread id".into());
+            }
+            let (st, v) = call("POST", "/tasks".into(), Some(json!({"tool": "bash", "args": {"command": "i=0; while [ $i -lt 400 ]; do echo 0123456789012345678901234567890123456789012345678; i=$((i+1)); done; echo err 1>&2"}}))).await;
+            if let Some(task) = v.get("task_id").and_then(|x| x.as_str()).map(|x| x.to_string()) {
+                let t2 = task.clone();
+                let ended = settle(Box::new(move |fr| fr.iter().any(|f| f.get("session_id").and_then(|x| x.as_str()) == Some(t2.as_str()) && f.get("type").and_then(|x| x.as_str()) == Some("tool_task_status") && matches!(f.get("status").and_then(|x| x.as_str()), Some("exited") | Some("failed") | Some("cancelled"))))).await;
+                *counts.entry(format!("live_task_status_{st}_ended_{ended}")).or_default() += 1;
+                all_ended &= ended;
+                task_ids.push(task);
+                check_step("pipes task printing 20 kB", &mut viol, &mut checks, &mut snapshot);
+            } else {
+                notes.push(format!("POST /tasks -> {st}: no task id"));
+            }
+            if !all_ended {
+                notes.push("live case: a producer had not ended after 40 s; the read-only phase was skipped".into());
+                return;
+            }
+            // every producer has written its last frame: read-only routes add nothing
+            let mut uris = vec!["/tasks".to_string(), "/threads".to_string()];
+            for s in &session_ids {
+                uris.push(format!("/sessions/{s}/events"));
+            }
+            for t in &task_ids {
+                uris.push(format!("/tasks/{t}"));
+                uris.push(format!("/tasks/{t}/output"));
+                uris.push(format!("/tasks/{t}/output?stream=stderr"));
+                uris.push(format!("/tasks/{t}/events"));
+            }
+            for u in uris {
+                let before = std::fs::read(&log_path).unwrap_or_default();
+                let (st, _) = call("GET", u.clone(), None).await;
+                let after = std::fs::read(&log_path).unwrap_or_default();
+                checks += 1;
+                *counts.entry("live_read_only_requests".into()).or_default() += 1;
+                if after != before {
+                    viol.push((format!("live: GET {u} -> {st}: a read-only request changed the truth log ({} -> {} bytes)", before.len(), after.len()), "silent_request_appended".into(), json!({"kind": "live", "method": "GET", "uri": u})));
+                }
+            }
+        })
+    }));
+    let (hv, hp) = mon_drain();
+    mon_set_path(None);
+    res.evaluations += 1;
+    res.oracle_checks += checks + hp;
+    res.bump_by("hook_points_checked_inside_append", hp);
+    res.bump_by("live_hook_points", hp);
+    for (k, n) in counts {
+        res.bump_by(&k, n);
+    }
+    res.notes.extend(notes);
+    if r.is_err() {
+        res.impl_panics += 1;
+        push_violation(res, base_id, "live case: panic".into(), "panic", json!({"kind": "live"}));
+    }
+    for (what, class) in hv {
+        push_violation(res, base_id, format!("live (session / task emitters): {what}"), &class, json!({"kind": "live"}));
+    }
+    for (what, class, replay) in viol {
+        push_violation(res, base_id, what, &class, replay);
+    }
+}
+
 fn main() {
     let a = parse_args();
     let mut res = RunResult::new("C02", &a);
+    let t_start = std::time::Instant::now();
     res.rule = "case = history of ContinuityStore capability calls (17 capabilities, 7 append kinds, every selector / summary / stride / limit / dry_run / execute / block_on_inflight combination, 40 unknown / malformed / path-shaped thread ids, frames of 8190..100000 bytes), sidecar faults (delete all caches, torn tail, empty, stale prefix) and restarts; 16 named store states (in-flight job, backlog > max_new, all checkpointed, caches deleted / corrupt, restart, children, > 256 KiB thread) x every parameter combination of the read-only / dry-run / no-op invocations on a known id and on `../events`; events.jsonl is read before and after EVERY call and at every log.* hook point inside EventLog::append; non-trivial = at least one appending call, one silent call and one fault or restart; distinct by hash of the call list; plus log-level cases (frames around the BufWriter capacity, second O_APPEND handle) and router-level cases (percent-encoded ids through the real axum router), oracle only".into();
     let n = if a.thorough() { 1500 } else { 110 };
     let mut r = Rng::new(a.seed);
@@ -1249,9 +1438,15 @@ fn main() {
         }
     }
     let base = res.evaluations as i64;
+    let t_hist = std::time::Instant::now();
     log_level_cases(&a, &mut res, base, &mut w);
     w.flush();
+    let t_log = t_hist.elapsed().as_millis() as u64;
     router_cases(&a, &mut res, base + 1000);
+    let t_router = t_hist.elapsed().as_millis() as u64 - t_log;
+    live_cases(&a, &mut res, base + 2000);
+    let t_live = t_hist.elapsed().as_millis() as u64 - t_log - t_router;
+    res.notes.push(format!("wall ms: histories {}, log-level {t_log}, router {t_router}, live {t_live}", t_start.elapsed().as_millis() as u64 - t_log - t_router - t_live));
     rip_kernel::verif::set_hook(None);
     res.distinct_nontrivial = distinct.count();
     res.case_files = w.files.iter().map(|p| p.display().to_string()).collect();
